@@ -48,7 +48,7 @@ def strategy(tier):
             "mode": st.just("sequence"),
             "inst": inst,
             "filters": gen.filter_configs(),
-            "history": st.lists(step, max_size=40),
+            "history": gen.sized_lists(step, 40),
         }
     )
     small = gen.instances(
